@@ -334,6 +334,10 @@ func ackAlts(env *c16Env, set func(m proto.Message, v []string)) []alt {
 		{"empty-string", func(m proto.Message) { set(m, []string{""}) }},
 		{"empty-list", func(m proto.Message) { set(m, nil) }},
 		{"mixed", func(m proto.Message) { set(m, []string{env.staleAck, "zz", env.liveAck}) }},
+		// well-formed ids only, some of which no longer match an open delivery
+		{"stale+live", func(m proto.Message) { set(m, []string{env.staleAck, env.liveAck}) }},
+		{"live-twice", func(m proto.Message) { set(m, []string{env.liveAck, env.liveAck}) }},
+		{"live+foreign", func(m proto.Message) { set(m, []string{env.liveAck, env.foreignAck}) }},
 	}
 }
 
